@@ -250,7 +250,7 @@ func runC18(t *testing.T, env core.Env, rep *core.Report) {
 		depth = 10
 	}
 	_, perIP := p2p.VerifLimits()
-	rep.Bound = fmt.Sprintf("[admission: BFS depth %d over {add(inbound|outbound|persistent, h1|h2), done, ban, tick ban/2, tick ban} at the production limits (per-host %d) + directed run to the total limit] [connection manager: BFS over dial outcomes {success, refusal}, disconnect, remove, retry tick for target 1..3 with address policies {fresh, single}; directed 26-refusal run on a single address]", depth, perIP)
+	rep.Bound = fmt.Sprintf("[admission: BFS depth %d over {add(inbound|outbound|persistent, h1|h2), done, ban, tick ban/2, tick ban} at the production limits (per-host %d) + directed run to the total limit] [connection manager: BFS over dial outcomes {success, refusal}, disconnect, remove, retry tick for targets {1,2,3,8} (thorough: 1..8) with address policies {fresh, single}; directed 26-refusal run on a single address]", depth, perIP)
 	// ---- (a) BFS -----------------------------------------------------------------------------
 	if env.Mine(0) {
 		seen := map[string]bool{}
@@ -329,15 +329,22 @@ func runC18(t *testing.T, env core.Env, rep *core.Report) {
 	}
 	// ---- (b) connection manager ----------------------------------------------------------------------
 	job := 1
-	for target := 1; target <= 3; target++ {
+	targets := []int{1, 2, 3, 8}
+	if env.Tier == "thorough" {
+		targets = []int{1, 2, 3, 4, 5, 6, 7, 8}
+	}
+	for _, target := range targets {
 		for _, policy := range []string{"fresh", "single"} {
 			job++
 			if !env.Mine(job) || rep.Expired() {
 				continue
 			}
-			cmDepth := 7
+			cmDepth := 9
 			if env.Tier == "thorough" {
-				cmDepth = 9
+				cmDepth = 11
+			}
+			if target > 3 {
+				cmDepth -= 1 // (the state set is closed under the key well before that)
 			}
 			cmBFS(t, rep, target, policy, cmDepth)
 		}
@@ -571,7 +578,7 @@ func runCM(t *testing.T, target int, policy string, evs []cmEv) (res cmResult) {
 				removed++
 			}
 		}
-		res.Key = fmt.Sprintf("open=%d pendingDials=%d global=%d perAddr=%v removed=%d", len(lo), pend, g, pa, removed)
+		res.Key = fmt.Sprintf("open=%d pendingDials=%d global=%d perAddr=%v removed=%d handler[%s]", len(lo), pend, g, pa, removed, connmgr.VerifHandlerState(cm))
 		res.Dials = pend
 		for _, e := range lo {
 			res.Open = append(res.Open, e.id)
